@@ -251,6 +251,43 @@ func c03Families(tier string) []explore.Family {
 			}
 		}})
 	}
+	// the []byte a render returned belongs to the caller: later renders (same template, other bindings; other
+	// templates) must not change it. Output sizes straddle typical buffer thresholds.
+	sizes := []int{0, 1, 63, 64, 65, 4095, 4096, 4097, 65535, 65536, 65537, 200000, 1 << 20}
+	fams = append(fams, explore.Family{Name: "returned-bytes-stay-intact", Count: int64(len(sizes) * len(sizes)), Run: func(i int64, r *explore.Rec) {
+		n1, n2 := sizes[int(i)/len(sizes)], sizes[int(i)%len(sizes)]
+		eng := c03Engine()
+		tpl, err := eng.ParseString("{{ big }}{% for i in l %}{{ i }}{% endfor %}")
+		if err != nil {
+			panic(explore.BaselineFailure{Msg: err.Error()})
+		}
+		other, _ := eng.ParseString("other {{ big | upcase }}")
+		r.Eval()
+		r.Transition()
+		b1 := map[string]any{"big": strings.Repeat("a", n1), "l": []any{1, 2}}
+		b2 := map[string]any{"big": strings.Repeat("b", n2), "l": []any{3}}
+		out1, e1 := tpl.Render(b1)
+		if e1 != nil {
+			r.Violation("fails:big-output", map[string]any{"size": n1}, "output", e1.Error())
+			return
+		}
+		want1 := strings.Repeat("a", n1) + "12"
+		keep := string(out1) // a copy taken at once
+		out2, _ := tpl.Render(b2)
+		out3, _ := other.Render(b2)
+		s4, _ := tpl.RenderString(b2)
+		desc := func() any { return map[string]any{"first_output_bytes": n1 + 2, "second_output_bytes": n2 + 1} }
+		if keep != want1 {
+			r.Violation("wrong:big-output", desc(), trunc80(want1), trunc80(keep))
+		}
+		if string(out1) != want1 {
+			r.Violation("I2:returned-bytes-changed-by-later-render", desc(), "the first result still reads "+trunc80(want1), trunc80(string(out1)))
+		}
+		if string(out2) != strings.Repeat("b", n2)+"3" || s4 != string(out2) || string(out3) != "other "+strings.Repeat("B", n2) {
+			r.Violation("wrong:big-output", desc(), "second/third results", trunc80(string(out2)))
+		}
+		r.Class(fmt.Sprintf("bytes/%v", n1 > 65536))
+	}})
 	// one deterministic 40-step history through every operation (round robin from each starting point)
 	fams = append(fams, explore.Family{Name: "round-robin-40", Count: int64(ops), Run: func(i int64, r *explore.Rec) {
 		var ts []int
@@ -277,7 +314,7 @@ func init() {
 	explore.Register(&explore.Prop{
 		ID:    "C03",
 		Level: "model_checking",
-		Rule: "explicit-state search over histories of renders R(t,b) on one shared world (one engine, templates parsed once, binding environments built once and shared by reference): all histories of length <=2 over 16 templates x 3 environments (quick) / <=3 over 26 x 4 (thorough), each replayed on a fresh world, plus 40-step round-robin histories from every starting operation; " +
+		Rule: "explicit-state search over histories of renders R(t,b) on one shared world (one engine, templates parsed once, binding environments built once and shared by reference): all histories of length <=2 over 16 templates x 3 environments (quick) / <=3 over 26 x 4 (thorough), each replayed on a fresh world, plus 40-step round-robin histories from every starting operation; plus a family that keeps the []byte returned by a render of 0..2^20 bytes (13 sizes around 64, 4096, 65536) and re-reads it after later renders; " +
 			"templates cover assign of a bound name, capture, shadowing loops, cycle groups, nested loops with break, every array filter on bound arrays (incl. aliased sub-slices and spare capacity), include, a render failing half-way, tablerow, typed slices, structs, pointers, Drops, MapSlice, ranges; " +
 			"invariants after every step: deep snapshot of every environment unchanged (slices up to capacity, unexported fields, aliasing), result equals the solo result on a fresh engine/parse/bindings; structural changes of render trees / engine configuration are recorded (not alarms: the statement defines template immutability through re-render equality); state = canonical world snapshot after the history; transition = one render",
 		Assumptions: []string{
